@@ -80,6 +80,7 @@ def run(tier, seed, replay=None):
                     kvp = dict(t.split("=", 1) for t in line.split()[1:])
                     pinned.append((line, kvp["type"], vname.get(kvp["ver"], kvp["ver"]), int(kvp["seed"])))
             cases = pinned + cases
+        cases = cases + be.float_boundary_cases(12 if tier == "quick" else 60)
         samples = sorted(f for f in os.listdir(samples_dir) if f.endswith(".nif"))
         rcases = ["resave name=%s opts=%s" % (f, o) for f in samples for o in ("raw", "default")]
         # loadable files whose pruning needs deletions that enable each other: a chain of unreferenced nodes, stored
